@@ -18,6 +18,7 @@ PROPERTY = {
         }, carries_lemmas=("lemma_default_same_target_bound", "lemma_downgrading_same_target_bound")),
     ],
     "timeout": 900,
+    "kani_args": ["--no-memory-safety-checks"],
     "kani": [
         Harness("c06_retry_session_persists_default", "C06.execution.retry_session_persists", "PROVED-C",
                 "ExecuteRequestContext::retry_session returns the same session for every failure of one request: second Unavailable / second digest-only ReadTimeout are not retried (all field values, both idempotence flags)",
